@@ -12,11 +12,28 @@ import z3
 from .values import PathInfeasible, RustPanic, Unsupported, Violation
 
 
+class SleepBlocked(Exception):
+    """every enabled transition is in the sleep set: this interleaving is a permutation of
+    independent steps of one that is explored elsewhere"""
+
+
+def independent(f1, f2):
+    for k, m in f1.items():
+        m2 = f2.get(k)
+        if m2 is not None and (m == "w" or m2 == "w"):
+            return False
+    return True
+
+
 class Exec:
-    def __init__(self, prefix, max_steps=400000):
-        self.prefix = list(prefix)
+    def __init__(self, prefix, max_steps=400000, shared=None):
+        self.prefix = list(prefix)       # list of (decision, meta)
         self.pos = 0
         self.decisions = []
+        self.full = []
+        self.shared = shared if shared is not None else {}
+        self.sleep = {}
+        self._cur = None
         self.labels = []
         self.alts = []
         self.solver = z3.Solver()
@@ -33,15 +50,47 @@ class Exec:
         if n <= 0:
             raise PathInfeasible()
         if self.pos < len(self.prefix):
-            d = self.prefix[self.pos]
+            d = self.prefix[self.pos][0]
         else:
             d = 0
             for i in range(n - 1, 0, -1):
-                self.alts.append(self.decisions + [i])
+                self.alts.append(self.full + [(i, None)])
         self.decisions.append(d)
+        self.full.append((d, None))
         self.labels.append((label, d, n))
         self.pos += 1
         return d
+
+    def sched(self, names):
+        """scheduler decision with sleep sets (partial-order reduction)"""
+        n = len(names)
+        key = tuple(self.decisions)
+        if self.pos < len(self.prefix):
+            d, meta = self.prefix[self.pos]
+            meta = meta or []
+        else:
+            cands = [i for i in range(n) if names[i] not in self.sleep]
+            if not cands:
+                raise SleepBlocked()
+            d, meta = cands[0], []
+            for j in range(len(cands) - 1, 0, -1):
+                self.alts.append(self.full + [(cands[j], cands[:j])])
+        self.decisions.append(d)
+        self.full.append((d, meta))
+        self.labels.append(("sched:" + names[d], d, n))
+        self.pos += 1
+        self._cur = (key, d, names[d], meta)
+        return d
+
+    def sched_done(self, fp):
+        key, d, name, meta = self._cur
+        self.shared[(key, d)] = (name, dict(fp))
+        new = {}
+        pool = list(self.sleep.items()) + [self.shared[(key, j)] for j in meta if (key, j) in self.shared]
+        for u, fpu in pool:
+            if u != name and independent(fpu, fp):
+                new[u] = fpu
+        self.sleep = new
 
     def _sat(self, extra):
         t0 = time.time()
@@ -58,15 +107,16 @@ class Exec:
     def branch(self, conds):
         conds = [z3.simplify(c) if not isinstance(c, bool) else z3.BoolVal(c) for c in conds]
         if self.pos < len(self.prefix):
-            d = self.prefix[self.pos]
+            d = self.prefix[self.pos][0]
         else:
             feas = [i for i, c in enumerate(conds) if not z3.is_false(c) and (z3.is_true(c) or self._sat(c))]
             if not feas:
                 raise PathInfeasible()
             d = feas[0]
             for i in reversed(feas[1:]):
-                self.alts.append(self.decisions + [i])
+                self.alts.append(self.full + [(i, None)])
         self.decisions.append(d)
+        self.full.append((d, None))
         self.labels.append(("branch", d, len(conds)))
         self.pos += 1
         self.solver.add(conds[d])
@@ -137,7 +187,7 @@ class Exec:
             for n, v in self.syms.items():
                 mv = model.eval(v, model_completion=True)
                 vals[n] = mv.as_long()
-        return {"decisions": list(self.decisions), "labels": [list(x) for x in self.labels], "inputs": vals,
+        return {"decisions": [list(x) if x[1] is not None else [x[0], None] for x in self.full], "labels": [list(x) for x in self.labels], "inputs": vals,
                 "events": list(self.events), "detail": detail}
 
     def event(self, **kw):
@@ -152,6 +202,7 @@ class Stats:
         self.smt_time = 0.0
         self.steps = 0
         self.truncated = False
+        self.sleep_pruned = 0
         self.samples = []
         self.max_decisions = 0
 
@@ -160,6 +211,7 @@ def explore(run_path, max_paths=20000, time_budget=None, max_steps=400000, on_pa
     """run_path(ex) executes one path.  Returns (violations, unsupported, stats)."""
     st = Stats()
     stack = [[]]
+    shared = {}
     violations = []
     unsupported = []
     t0 = time.time()
@@ -168,7 +220,7 @@ def explore(run_path, max_paths=20000, time_budget=None, max_steps=400000, on_pa
             st.truncated = True
             break
         prefix = stack.pop()
-        ex = Exec(prefix, max_steps)
+        ex = Exec(prefix, max_steps, shared)
         if fixed_inputs:
             ex.fixed = fixed_inputs
         try:
@@ -178,6 +230,8 @@ def explore(run_path, max_paths=20000, time_budget=None, max_steps=400000, on_pa
                 on_path(ex)
         except PathInfeasible:
             st.infeasible += 1
+        except SleepBlocked:
+            st.sleep_pruned += 1
         except Violation as v:
             st.paths += 1
             violations.append(v)
@@ -185,7 +239,7 @@ def explore(run_path, max_paths=20000, time_budget=None, max_steps=400000, on_pa
                 st.truncated = True
                 break
         except Unsupported as u:
-            unsupported.append((str(u), list(ex.decisions)))
+            unsupported.append((str(u), list(ex.full)))
             if len(unsupported) >= 3:
                 st.truncated = True
                 break
@@ -196,5 +250,115 @@ def explore(run_path, max_paths=20000, time_budget=None, max_steps=400000, on_pa
         if len(st.samples) < 3 and ex.events:
             st.samples.append({"decisions": list(ex.decisions), "events": ex.events[:40]})
         stack.extend(ex.alts)
+    st.wall = time.time() - t0
+    return violations, unsupported, st
+
+
+# ------------------------------------------------------------------ parallel exploration
+_PAR = {}
+
+
+def _worker(args):
+    prefixes, max_paths, budget, max_steps = args
+    run_path = _PAR["run_path"]
+    st = Stats()
+    violations, unsupported = [], []
+    t0 = time.time()
+    shared = {}
+    stack = list(prefixes)
+    while stack:
+        if st.paths >= max_paths or (budget and time.time() - t0 > budget):
+            st.truncated = True
+            break
+        prefix = stack.pop()
+        ex = Exec(prefix, max_steps, shared)
+        try:
+            run_path(ex)
+            st.paths += 1
+        except PathInfeasible:
+            st.infeasible += 1
+        except SleepBlocked:
+            st.sleep_pruned += 1
+        except Violation as v:
+            st.paths += 1
+            violations.append((v.prop, v.msg, v.detail))
+            if len(violations) >= 2:
+                st.truncated = True
+                break
+        except Unsupported as u:
+            unsupported.append((str(u), list(ex.full)))
+            if len(unsupported) >= 2:
+                st.truncated = True
+                break
+        st.smt_queries += ex.smt_queries
+        st.smt_time += ex.smt_time
+        st.steps += getattr(ex, "steps", 0)
+        st.max_decisions = max(st.max_decisions, len(ex.decisions))
+        if len(st.samples) < 1 and ex.events:
+            st.samples.append({"decisions": [list(x) for x in ex.full], "events": [{k: str(v) for k, v in e.items() if k != "now_raw"} for e in ex.events[:40]]})
+        stack.extend(ex.alts)
+    return violations, unsupported, st.__dict__
+
+
+def explore_parallel(run_path, max_paths=20000, time_budget=None, max_steps=400000, workers=12, seed_paths=400):
+    """breadth-first until `seed_paths` open prefixes exist, then one subtree per worker process
+    (fork: the parsed program is inherited).  Sleep-set footprints are per worker; a missing
+    footprint only means less pruning."""
+    import multiprocessing as mp
+    st = Stats()
+    violations, unsupported = [], []
+    t0 = time.time()
+    shared = {}
+    from collections import deque
+    queue = deque([[]])
+    while queue and len(queue) < seed_paths:
+        prefix = queue.popleft()
+        ex = Exec(prefix, max_steps, shared)
+        try:
+            run_path(ex)
+            st.paths += 1
+        except PathInfeasible:
+            st.infeasible += 1
+        except SleepBlocked:
+            st.sleep_pruned += 1
+        except Violation as v:
+            st.paths += 1
+            violations.append(v)
+        except Unsupported as u:
+            unsupported.append((str(u), list(ex.full)))
+        st.smt_queries += ex.smt_queries
+        st.smt_time += ex.smt_time
+        st.steps += getattr(ex, "steps", 0)
+        if len(st.samples) < 2 and ex.events:
+            st.samples.append({"decisions": [list(x) for x in ex.full], "events": [{k: str(v) for k, v in e.items() if k != "now_raw"} for e in ex.events[:40]]})
+        # depth-first order inside alts is reversed; for seeding any order is fine
+        queue.extend(ex.alts)
+        if violations or unsupported or (time_budget and time.time() - t0 > time_budget):
+            break
+    if violations or unsupported or not queue:
+        st.wall = time.time() - t0
+        st.truncated = bool(queue) and bool(violations or unsupported)
+        return violations, unsupported, st
+    _PAR["run_path"] = run_path
+    items = list(queue)
+    chunks = [[x] for x in items]
+    left = (time_budget - (time.time() - t0)) if time_budget else None
+    ctx = mp.get_context("fork")
+    with ctx.Pool(workers) as pool:
+        res = list(pool.imap_unordered(_worker, [(c, max_paths, left, max_steps) for c in chunks], chunksize=1))
+    for v, u, d in res:
+        for prop, msg, detail in v:
+            violations.append(Violation(prop, msg, detail))
+        unsupported.extend(u)
+        st.paths += d["paths"]
+        st.infeasible += d["infeasible"]
+        st.sleep_pruned += d["sleep_pruned"]
+        st.smt_queries += d["smt_queries"]
+        st.smt_time += d["smt_time"]
+        st.steps += d["steps"]
+        st.truncated = st.truncated or d["truncated"]
+        st.max_decisions = max(st.max_decisions, d["max_decisions"])
+        if len(st.samples) < 3:
+            st.samples.extend(d["samples"][:1])
     st.wall = time.time() - t0
     return violations, unsupported, st
